@@ -16,10 +16,16 @@ import copy
 
 
 def _binds(st):
+    """Does the if bind, store, mutate (a call statement) or return?"""
     for n in ast.walk(st):
-        if isinstance(n, ast.Name) and isinstance(n.ctx, ast.Store):
+        if isinstance(n, (ast.Name, ast.Subscript, ast.Attribute)) and \
+                isinstance(n.ctx, (ast.Store, ast.Del)):
             return True
         if isinstance(n, ast.Return):
+            return True
+        if isinstance(n, ast.Expr) and isinstance(n.value, ast.Call) and \
+                not ast.unparse(n.value.func).startswith(("LOGGER.",
+                                                          "logging.")):
             return True
     return False
 
@@ -75,8 +81,10 @@ class Variant:
         self.conds = conds      # [(test expr inside fnode, outcome)]
 
 
-def path_variants(fnode):
-    """List of Variant objects; [Variant(fnode, [])] when nothing splits."""
+def path_variants(fnode, within=None):
+    """List of Variant objects; [Variant(fnode, [])] when nothing splits.
+    With ``within`` (a loop / with statement of fnode) the ifs of that
+    statement's body are split instead of those of the function body."""
     tagged = []
     for i, st in enumerate(n for n in ast.walk(fnode)
                            if isinstance(n, ast.If)):
@@ -85,7 +93,7 @@ def path_variants(fnode):
     fnode._pv_root = True
     try:
         out = []
-        for choice in _alts(fnode.body):
+        for choice in _alts(fnode.body if within is None else within.body):
             ch = {st._pv_tag: o for st, o in choice}
             cp = copy.deepcopy(fnode)
             p = _Pick(ch)
